@@ -60,11 +60,12 @@ def offset(e, n): return E('offset', E._w(e), int(n))
 def nxt(e): return offset(e, 1)
 def prv(e): return offset(e, -1)
 def der(e): return E('der', E._w(e))
+def inf_der(e): return E('inf_der', E._w(e))
 def Q(i): return E('q', i)            # i-th declared quadrature state
 
 
 LEAVES = {'c', 'x', 'u', 'z', 'p', 'v', 't', 'T', 't0', 'tf', 'DT', 'DTc', 'q'}
-WRAP = {'at_t0', 'at_tf', 'integral', 'integral_control', 'sum', 'offset', 'der'}
+WRAP = {'at_t0', 'at_tf', 'integral', 'integral_control', 'sum', 'offset', 'der', 'inf_der'}
 
 
 def show(e):
@@ -177,8 +178,23 @@ class Con:
     def __post_init__(self):
         for k in ('lhs', 'rhs', 'mid'):
             v = getattr(self, k)
-            if v is not None and not isinstance(v, E):
+            if isinstance(v, (list, tuple)):
+                # vector-valued side: list of components
+                setattr(self, k, [x if isinstance(x, E) else E('c', Fraction(x)) for x in v])
+            elif v is not None and not isinstance(v, E):
                 setattr(self, k, E('c', Fraction(v)))
+
+    def components(self):
+        """scalar constraints (lhs, rhs, mid) per vector component (scalars are broadcast)"""
+        sides = [self.lhs, self.rhs, self.mid]
+        n = max([len(s) for s in sides if isinstance(s, list)] or [1])
+        out = []
+        for i in range(n):
+            out.append(tuple((s[i] if isinstance(s, list) else s) for s in sides))
+        return out
+
+    def is_vector(self):
+        return any(isinstance(s, list) for s in (self.lhs, self.rhs, self.mid))
 
 
 @dataclass
